@@ -1,12 +1,283 @@
 package main
 
+// Assumed contracts (built-in models) for cryptography, bytes.Buffer and container/heap.
+
 import (
+	"fmt"
+	"go/token"
 	"go/types"
+
+	"golang.org/x/tools/go/ssa"
 )
 
-func registerHeapModels()   {}
-func registerCryptoModels() {}
-func registerBufferModels() {}
+func registerHeapModels() {}
+
+// ---------- cryptography: uninterpreted functions + named axioms ----------
+//
+//   aead_sem(obj)                      the (algorithm, key) an AEAD object stands for
+//   aead_overhead(sem), aead_noncesize(sem)
+//   aead_seal(sem, nonce, nlen, pt, plen)  : byte sequence (0 outside [0, plen+overhead))
+//   aead_valid(sem, nonce, nlen, ct, clen) : Open succeeds
+//   aead_open(sem, nonce, nlen, ct, clen)  : the plaintext Open returns
+//   axiom open∘seal = id, seal output is valid
+//   salsa_ks(nonce8, key32)            keystream; XORKeyStream is bytewise bxor with it; bxor(bxor(a,k),k) = a
+// Byte sequences are position independent: seq(array, off, len) (see seqFun).
+
+func (e *Exec) cryptoDecls() {
+	if e.sc.declared["crypto!"] {
+		return
+	}
+	e.sc.declared["crypto!"] = true
+	A := "(Array Int Int)"
+	e.seqFun()
+	e.sc.declFun("uf_aead_sem_1", []string{"Int"}, "Int")
+	e.sc.declFun("uf_aead_overhead_1", []string{"Int"}, "Int")
+	e.sc.declFun("uf_aead_noncesize_1", []string{"Int"}, "Int")
+	e.sc.declFun("uf_aead_seal_5", []string{"Int", A, "Int", A, "Int"}, A)
+	e.sc.declFun("uf_aead_valid_5", []string{"Int", A, "Int", A, "Int"}, "Bool")
+	e.sc.declFun("uf_aead_open_5", []string{"Int", A, "Int", A, "Int"}, A)
+	e.sc.declFun("uf_aead_mk_4", []string{"Int", A, "Int", "Int"}, "Int")
+	e.sc.declFun("uf_salsa_ks_3", []string{A, "Int", A}, A)
+	e.sc.declFun("uf_bxor_2", []string{"Int", "Int"}, "Int")
+	e.sc.axiom("aead_ovh_pos", "(forall ((s Int)) (! (and (>= (uf_aead_overhead_1 s) 0) (>= (uf_aead_noncesize_1 s) 0)) :pattern ((uf_aead_overhead_1 s))))")
+	e.sc.axiom("aead_seal_nf", "(forall ((s Int) (n "+A+") (nl Int) (p "+A+") (pl Int) (k Int)) (! (and (=> (or (< k 0) (>= k (+ pl (uf_aead_overhead_1 s)))) (= (select (uf_aead_seal_5 s n nl p pl) k) 0)) (<= 0 (select (uf_aead_seal_5 s n nl p pl) k)) (<= (select (uf_aead_seal_5 s n nl p pl) k) 255)) :pattern ((select (uf_aead_seal_5 s n nl p pl) k))))")
+	e.sc.axiom("aead_open_seal", "(forall ((s Int) (n "+A+") (nl Int) (p "+A+") (pl Int)) (! (=> (>= pl 0) (and (uf_aead_valid_5 s n nl (uf_aead_seal_5 s n nl p pl) (+ pl (uf_aead_overhead_1 s))) (forall ((k Int)) (! (=> (and (<= 0 k) (< k pl)) (= (select (uf_aead_open_5 s n nl (uf_aead_seal_5 s n nl p pl) (+ pl (uf_aead_overhead_1 s))) k) (select p k))) :pattern ((select (uf_aead_open_5 s n nl (uf_aead_seal_5 s n nl p pl) (+ pl (uf_aead_overhead_1 s))) k)))))) :pattern ((uf_aead_seal_5 s n nl p pl))))")
+	e.sc.axiom("aead_open_bytes", "(forall ((s Int) (n "+A+") (nl Int) (c "+A+") (cl Int) (k Int)) (! (and (<= 0 (select (uf_aead_open_5 s n nl c cl) k)) (<= (select (uf_aead_open_5 s n nl c cl) k) 255)) :pattern ((select (uf_aead_open_5 s n nl c cl) k))))")
+	e.sc.axiom("bxor_inv", "(forall ((a Int) (k Int)) (! (=> (and (<= 0 a) (<= a 255)) (= (uf_bxor_2 (uf_bxor_2 a k) k) a)) :pattern ((uf_bxor_2 (uf_bxor_2 a k) k))))")
+	e.sc.axiom("bxor_rng", "(forall ((a Int) (k Int)) (! (and (<= 0 (uf_bxor_2 a k)) (<= (uf_bxor_2 a k) 255)) :pattern ((uf_bxor_2 a k))))")
+	e.sc.used["axiom: AEAD Open(k,n,Seal(k,n,p)) succeeds and returns p; Seal/Open/keystream are uninterpreted functions of (algorithm,key), nonce bytes and data bytes"] = true
+	e.sc.used["axiom: XOR with a keystream byte is an involution on bytes (bxor(bxor(a,k),k) = a)"] = true
+}
+
+func registerCryptoModels() {
+	intT := types.Typ[types.Int]
+	errT := types.Universe.Lookup("error").Type()
+	byteT := types.Typ[types.Byte]
+	semOf := func(e *Exec, recv Val) string {
+		e.cryptoDecls()
+		return app("uf_aead_sem_1", "(i_val "+recv.T+")")
+	}
+	models["(crypto/cipher.AEAD).Overhead"] = func(e *Exec, fr *Frame, st *State, args []Val, cc *ssa.CallCommon, pos token.Pos) Val {
+		return Val{T: app("uf_aead_overhead_1", semOf(e, args[0])), Typ: intT}
+	}
+	models["(crypto/cipher.AEAD).NonceSize"] = func(e *Exec, fr *Frame, st *State, args []Val, cc *ssa.CallCommon, pos token.Pos) Val {
+		return Val{T: app("uf_aead_noncesize_1", semOf(e, args[0])), Typ: intT}
+	}
+	modelEffects["(crypto/cipher.AEAD).Overhead"] = func(e *Exec, cc *ssa.CallCommon) []string { return nil }
+	modelEffects["(crypto/cipher.AEAD).NonceSize"] = func(e *Exec, cc *ssa.CallCommon) []string { return nil }
+
+	// appendBytes writes n bytes given by gen(k) behind dst (in place if capacity allows, else into a fresh array)
+	appendBytes := func(e *Exec, st *State, dst Val, n string, gen func(k string) string, whole string) string {
+		m := e.elemHeap(byteT)
+		h := e.hget(st, m)
+		newArr := e.alloc(st)
+		total := e.sc.freshName("crypto.total")
+		e.sc.define(total, "Int", fmt.Sprintf("(+ (s_len %s) %s)", dst.T, n))
+		fits := e.sc.freshName("crypto.fits")
+		e.sc.define(fits, "Bool", fmt.Sprintf("(<= %s (s_cap %s))", total, dst.T))
+		rArr := e.sc.freshName("crypto.arr")
+		e.sc.define(rArr, "Int", ite(fits, "(s_arr "+dst.T+")", newArr))
+		rOff := e.sc.freshName("crypto.off")
+		e.sc.define(rOff, "Int", ite(fits, "(s_off "+dst.T+")", "0"))
+		base := e.sc.freshName("crypto.base")
+		e.sc.define(base, "Int", fmt.Sprintf("(+ %s (s_len %s))", rOff, dst.T))
+		R := e.sc.freshConst("crypto.R", "(Array Int Int)")
+		q := e.sc.freshName("q.j")
+		old := sel(h, "(s_arr "+dst.T+")")
+		e.sc.assume(st.reach, fmt.Sprintf("(forall ((%s Int)) (! (=> (and (<= %s %s) (< %s (+ %s %s))) (= (select %s %s) %s)) :pattern ((select %s %s))))", q, base, q, q, base, n, R, q, gen(fmt.Sprintf("(- %s %s)", q, base)), R, q))
+		// the existing prefix of dst is kept (copied on growth); in place: everything outside the written region is unchanged
+		e.sc.assume(st.reach, fmt.Sprintf("(forall ((%s Int)) (! (=> (and (<= %s %s) (< %s %s)) (= (select %s %s) (select %s (+ (s_off %s) (- %s %s))))) :pattern ((select %s %s))))", q, rOff, q, q, base, R, q, old, dst.T, q, rOff, R, q))
+		e.sc.assume(st.reach, fmt.Sprintf("(=> %s (forall ((%s Int)) (! (=> (or (< %s %s) (>= %s (+ %s %s))) (= (select %s %s) (select %s %s))) :pattern ((select %s %s)))))", fits, q, q, base, q, base, n, R, q, old, q, R, q))
+		e.hset(st, m, sto(h, rArr, R))
+		if whole != "" {
+			// derived fact (follows from the two facts above and the normal form of the sequence): the
+			// written region, read back as a sequence, is the whole output
+			e.sc.assume(st.reach, fmt.Sprintf("(=> (>= %s 0) (= (seq %s %s %s) %s))", n, R, base, n, whole))
+		}
+		newCap := e.sc.freshConst("crypto.cap", "Int")
+		e.sc.assume(st.reach, fmt.Sprintf("(and (>= %s %s) (<= %s 140737488355328))", newCap, total, newCap))
+		res := e.sc.freshName("crypto.res")
+		e.sc.define(res, "Slice", fmt.Sprintf("(mk_slice %s %s %s %s)", rArr, rOff, total, ite(fits, "(s_cap "+dst.T+")", newCap)))
+		return res
+	}
+	overlapOK := func(dst, src Val, n string) string {
+		// crypto/cipher requires exact overlap or none between the output region and the input
+		return fmt.Sprintf("(or (and (= (s_arr %s) (s_arr %s)) (= (+ (s_off %s) (s_len %s)) (s_off %s))) (not (= (s_arr %s) (s_arr %s))) (<= (+ (s_off %s) (s_len %s) %s) (s_off %s)) (<= (+ (s_off %s) (s_len %s)) (+ (s_off %s) (s_len %s))) (> (+ (s_len %s) %s) (s_cap %s)))",
+			dst.T, src.T, dst.T, dst.T, src.T, dst.T, src.T, dst.T, dst.T, n, src.T, src.T, src.T, dst.T, dst.T, dst.T, n, dst.T)
+	}
+	models["(crypto/cipher.AEAD).Seal"] = func(e *Exec, fr *Frame, st *State, args []Val, cc *ssa.CallCommon, pos token.Pos) Val {
+		sem := semOf(e, args[0])
+		dst, nonce, pt := args[1], args[2], args[3]
+		e.safety(fr, st, fmt.Sprintf("(= (s_len %s) (uf_aead_noncesize_1 %s))", nonce.T, sem), "aead-nonce", "AEAD.Seal panics unless len(nonce) == NonceSize()", pos)
+		n := e.sc.freshName("seal.n")
+		e.sc.define(n, "Int", fmt.Sprintf("(+ (s_len %s) (uf_aead_overhead_1 %s))", pt.T, sem))
+		e.safety(fr, st, overlapOK(dst, pt, n), "aead-overlap", "AEAD.Seal panics on inexact overlap of dst and plaintext", pos)
+		ct := e.sc.freshName("seal.ct")
+		e.sc.define(ct, "(Array Int Int)", app("uf_aead_seal_5", sem, e.seqOfSlice(st, nonce.T), "(s_len "+nonce.T+")", e.seqOfSlice(st, pt.T), "(s_len "+pt.T+")"))
+		e.seqLit(st, nonce, 12)
+		res := appendBytes(e, st, dst, n, func(k string) string { return sel(ct, k) }, ct)
+		return Val{T: res, Typ: cc.Signature().Results().At(0).Type()}
+	}
+	models["(crypto/cipher.AEAD).Open"] = func(e *Exec, fr *Frame, st *State, args []Val, cc *ssa.CallCommon, pos token.Pos) Val {
+		sem := semOf(e, args[0])
+		dst, nonce, ct := args[1], args[2], args[3]
+		e.safety(fr, st, fmt.Sprintf("(= (s_len %s) (uf_aead_noncesize_1 %s))", nonce.T, sem), "aead-nonce", "AEAD.Open panics unless len(nonce) == NonceSize()", pos)
+		ok := e.sc.freshName("open.ok")
+		cseq := e.sc.freshName("open.ct")
+		e.sc.define(cseq, "(Array Int Int)", e.seqOfSlice(st, ct.T))
+		nseq := e.sc.freshName("open.nonce")
+		e.sc.define(nseq, "(Array Int Int)", e.seqOfSlice(st, nonce.T))
+		e.sc.define(ok, "Bool", fmt.Sprintf("(and (>= (s_len %s) (uf_aead_overhead_1 %s)) (uf_aead_valid_5 %s %s (s_len %s) %s (s_len %s)))", ct.T, sem, sem, nseq, nonce.T, cseq, ct.T))
+		n := e.sc.freshName("open.n")
+		e.sc.define(n, "Int", fmt.Sprintf("(ite %s (- (s_len %s) (uf_aead_overhead_1 %s)) (s_len %s))", ok, ct.T, sem, ct.T))
+		e.safety(fr, st, overlapOK(dst, ct, n), "aead-overlap", "AEAD.Open panics on inexact overlap of dst and ciphertext", pos)
+		pt := app("uf_aead_open_5", sem, nseq, "(s_len "+nonce.T+")", cseq, "(s_len "+ct.T+")")
+		junk := e.sc.freshConst("open.junk", "(Array Int Int)")
+		// success: plaintext appended to dst; failure: the output region may have been overwritten (zeroed)
+		e.seqLit(st, nonce, 12)
+		res := appendBytes(e, st, dst, n, func(k string) string { return ite(ok, sel(pt, k), sel(junk, k)) }, "")
+		er := e.fresh(st, "open.err", errT)
+		e.sc.assume(st.reach, fmt.Sprintf("(= (= %s nil_iface) %s)", er.T, ok))
+		rs := e.sc.freshName("open.res")
+		e.sc.define(rs, "Slice", ite(ok, res, "nil_slice"))
+		return Val{Typ: cc.Signature().Results(), Tuple: []Val{{T: rs, Typ: cc.Signature().Results().At(0).Type()}, er}}
+	}
+	bytesEff := func(e *Exec, cc *ssa.CallCommon) []string { return []string{e.elemHeap(byteT), "G_alloc"} }
+	modelEffects["(crypto/cipher.AEAD).Seal"] = bytesEff
+	modelEffects["(crypto/cipher.AEAD).Open"] = bytesEff
+
+	models["golang.org/x/crypto/salsa20.XORKeyStream"] = func(e *Exec, fr *Frame, st *State, args []Val, cc *ssa.CallCommon, pos token.Pos) Val {
+		e.cryptoDecls()
+		out, in, nonce, key := args[0], args[1], args[2], args[3]
+		e.safety(fr, st, fmt.Sprintf("(>= (s_len %s) (s_len %s))", out.T, in.T), "salsa-len", "salsa20.XORKeyStream panics if len(out) < len(in)", pos)
+		e.safety(fr, st, fmt.Sprintf("(or (= (s_len %s) 8) (= (s_len %s) 24))", nonce.T, nonce.T), "salsa-nonce", "salsa20.XORKeyStream panics unless the nonce has 8 or 24 bytes", pos)
+		m := e.elemHeap(byteT)
+		h := e.hget(st, m)
+		kl := e.locOf(key)
+		e.seqLit(st, nonce, 8)
+		ks := e.sc.freshName("salsa.ks")
+		e.sc.define(ks, "(Array Int Int)", app("uf_salsa_ks_3", e.seqOfSlice(st, nonce.T), "(s_len "+nonce.T+")", sel(h, kl.Base)))
+		R := e.sc.freshConst("salsa.R", "(Array Int Int)")
+		q := e.sc.freshName("q.j")
+		old := sel(h, "(s_arr "+out.T+")")
+		inArr := sel(h, "(s_arr "+in.T+")")
+		e.sc.assume(st.reach, fmt.Sprintf("(forall ((%s Int)) (! (=> (and (<= (s_off %s) %s) (< %s (+ (s_off %s) (s_len %s)))) (= (select %s %s) (uf_bxor_2 (select %s (+ (s_off %s) (- %s (s_off %s)))) (select %s (- %s (s_off %s)))))) :pattern ((select %s %s))))",
+			q, out.T, q, q, out.T, in.T, R, q, inArr, in.T, q, out.T, ks, q, out.T, R, q))
+		e.sc.assume(st.reach, fmt.Sprintf("(forall ((%s Int)) (! (=> (or (< %s (s_off %s)) (>= %s (+ (s_off %s) (s_len %s)))) (= (select %s %s) (select %s %s))) :pattern ((select %s %s))))", q, q, out.T, q, out.T, in.T, R, q, old, q, R, q))
+		e.hset(st, m, sto(h, "(s_arr "+out.T+")", R))
+		return Val{T: "0"}
+	}
+	modelEffects["golang.org/x/crypto/salsa20.XORKeyStream"] = func(e *Exec, cc *ssa.CallCommon) []string { return []string{e.elemHeap(byteT)} }
+
+	// constructors: the AEAD object stands for (algorithm, key bytes)
+	mkAEAD := func(e *Exec, st *State, kind int, keySeq, keyLen string, rt types.Type) Val {
+		e.cryptoDecls()
+		ref := e.alloc(st)
+		typ := e.sc.freshConst("aead.typ", "Int")
+		e.sc.assume(st.reach, "(not (= "+typ+" 0))")
+		sem := app("uf_aead_mk_4", fmt.Sprint(kind), keySeq, keyLen, "0")
+		e.sc.assume(st.reach, fmt.Sprintf("(and (= (uf_aead_sem_1 %s) %s) (= (uf_aead_overhead_1 %s) 16) (= (uf_aead_noncesize_1 %s) 12))", ref, sem, sem, sem))
+		e.sc.used["assumed: AES-GCM (crypto/cipher.NewGCM) and chacha20poly1305.New yield AEADs with Overhead()=16 and NonceSize()=12 determined by (algorithm, key)"] = true
+		return Val{T: fmt.Sprintf("(mk_iface %s %s)", typ, ref), Typ: rt}
+	}
+	models["crypto/aes.NewCipher"] = func(e *Exec, fr *Frame, st *State, args []Val, cc *ssa.CallCommon, pos token.Pos) Val {
+		e.cryptoDecls()
+		key := args[0]
+		ref := e.alloc(st)
+		typ := e.sc.freshConst("block.typ", "Int")
+		e.sc.assume(st.reach, "(not (= "+typ+" 0))")
+		e.sc.declFun("block_key", []string{"Int"}, "(Array Int Int)")
+		e.sc.declFun("block_keylen", []string{"Int"}, "Int")
+		ok := fmt.Sprintf("(or (= (s_len %s) 16) (= (s_len %s) 24) (= (s_len %s) 32))", key.T, key.T, key.T)
+		e.sc.assume(st.reach, fmt.Sprintf("(and (= (block_key %s) %s) (= (block_keylen %s) (s_len %s)))", ref, e.seqOfSlice(st, key.T), ref, key.T))
+		er := e.fresh(st, "aes.err", errT)
+		e.sc.assume(st.reach, fmt.Sprintf("(= (= %s nil_iface) %s)", er.T, ok))
+		blk := e.sc.freshName("aes.block")
+		e.sc.define(blk, "Iface", ite(ok, fmt.Sprintf("(mk_iface %s %s)", typ, ref), "nil_iface"))
+		return Val{Typ: cc.Signature().Results(), Tuple: []Val{{T: blk, Typ: cc.Signature().Results().At(0).Type()}, er}}
+	}
+	models["crypto/cipher.NewGCM"] = func(e *Exec, fr *Frame, st *State, args []Val, cc *ssa.CallCommon, pos token.Pos) Val {
+		e.cryptoDecls()
+		e.sc.declFun("block_key", []string{"Int"}, "(Array Int Int)")
+		e.sc.declFun("block_keylen", []string{"Int"}, "Int")
+		b := "(i_val " + args[0].T + ")"
+		a := mkAEAD(e, st, 1, app("block_key", b), app("block_keylen", b), cc.Signature().Results().At(0).Type())
+		return Val{Typ: cc.Signature().Results(), Tuple: []Val{a, {T: "nil_iface", Typ: errT}}}
+	}
+	models["golang.org/x/crypto/chacha20poly1305.New"] = func(e *Exec, fr *Frame, st *State, args []Val, cc *ssa.CallCommon, pos token.Pos) Val {
+		key := args[0]
+		ok := fmt.Sprintf("(= (s_len %s) 32)", key.T)
+		a := mkAEAD(e, st, 2, e.seqOfSlice(st, key.T), "(s_len "+key.T+")", cc.Signature().Results().At(0).Type())
+		er := e.fresh(st, "chacha.err", errT)
+		e.sc.assume(st.reach, fmt.Sprintf("(= (= %s nil_iface) %s)", er.T, ok))
+		r := e.sc.freshName("chacha.aead")
+		e.sc.define(r, "Iface", ite(ok, a.T, "nil_iface"))
+		return Val{Typ: cc.Signature().Results(), Tuple: []Val{{T: r, Typ: a.Typ}, er}}
+	}
+	for _, k := range []string{"crypto/aes.NewCipher", "crypto/cipher.NewGCM", "golang.org/x/crypto/chacha20poly1305.New"} {
+		modelEffects[k] = func(e *Exec, cc *ssa.CallCommon) []string { return []string{"G_alloc"} }
+	}
+}
+
+// ---------- bytes.Buffer as a ghost FIFO ----------
+
+func registerBufferModels() {
+	intT := types.Typ[types.Int]
+	errT := types.Universe.Lookup("error").Type()
+	byteT := types.Typ[types.Byte]
+	eff := func(e *Exec, cc *ssa.CallCommon) []string { return append(e.bufferMaps(), e.elemHeap(byteT)) }
+	models["(*bytes.Buffer).Len"] = func(e *Exec, fr *Frame, st *State, args []Val, cc *ssa.CallCommon, pos token.Pos) Val {
+		e.bufferMaps()
+		b := args[0].T
+		return Val{T: fmt.Sprintf("(- %s %s)", sel(e.hget(st, "GB_bufwr"), b), sel(e.hget(st, "GB_bufrd"), b)), Typ: intT}
+	}
+	modelEffects["(*bytes.Buffer).Len"] = func(e *Exec, cc *ssa.CallCommon) []string { return nil }
+	models["(*bytes.Buffer).Write"] = func(e *Exec, fr *Frame, st *State, args []Val, cc *ssa.CallCommon, pos token.Pos) Val {
+		e.bufferMaps()
+		b, p := args[0].T, args[1]
+		h := e.hget(st, e.elemHeap(byteT))
+		data := e.hget(st, "GB_bufdata")
+		wr := sel(e.hget(st, "GB_bufwr"), b)
+		R := e.sc.freshConst("buf.R", "(Array Int Int)")
+		q := e.sc.freshName("q.j")
+		e.sc.assume(st.reach, fmt.Sprintf("(forall ((%s Int)) (! (=> (and (<= %s %s) (< %s (+ %s (s_len %s)))) (= (select %s %s) (select (select %s (s_arr %s)) (+ (s_off %s) (- %s %s))))) :pattern ((select %s %s))))", q, wr, q, q, wr, p.T, R, q, h, p.T, p.T, q, wr, R, q))
+		e.sc.assume(st.reach, fmt.Sprintf("(forall ((%s Int)) (! (=> (< %s %s) (= (select %s %s) (select (select %s %s) %s))) :pattern ((select %s %s))))", q, q, wr, R, q, data, b, q, R, q))
+		e.hset(st, "GB_bufdata", sto(data, b, R))
+		e.hset(st, "GB_bufwr", sto(e.hget(st, "GB_bufwr"), b, fmt.Sprintf("(+ %s (s_len %s))", wr, p.T)))
+		return Val{Typ: cc.Signature().Results(), Tuple: []Val{{T: "(s_len " + p.T + ")", Typ: intT}, {T: "nil_iface", Typ: errT}}}
+	}
+	modelEffects["(*bytes.Buffer).Write"] = eff
+	models["(*bytes.Buffer).Read"] = func(e *Exec, fr *Frame, st *State, args []Val, cc *ssa.CallCommon, pos token.Pos) Val {
+		e.bufferMaps()
+		b, p := args[0].T, args[1]
+		m := e.elemHeap(byteT)
+		h := e.hget(st, m)
+		data := sel(e.hget(st, "GB_bufdata"), b)
+		rd := sel(e.hget(st, "GB_bufrd"), b)
+		wr := sel(e.hget(st, "GB_bufwr"), b)
+		n := e.sc.freshName("buf.n")
+		e.sc.define(n, "Int", fmt.Sprintf("(ite (<= (s_len %s) (- %s %s)) (s_len %s) (- %s %s))", p.T, wr, rd, p.T, wr, rd))
+		R := e.sc.freshConst("buf.R", "(Array Int Int)")
+		q := e.sc.freshName("q.j")
+		old := sel(h, "(s_arr "+p.T+")")
+		e.sc.assume(st.reach, fmt.Sprintf("(forall ((%s Int)) (! (=> (and (<= (s_off %s) %s) (< %s (+ (s_off %s) %s))) (= (select %s %s) (select %s (+ %s (- %s (s_off %s)))))) :pattern ((select %s %s))))", q, p.T, q, q, p.T, n, R, q, data, rd, q, p.T, R, q))
+		e.sc.assume(st.reach, fmt.Sprintf("(forall ((%s Int)) (! (=> (or (< %s (s_off %s)) (>= %s (+ (s_off %s) %s))) (= (select %s %s) (select %s %s))) :pattern ((select %s %s))))", q, q, p.T, q, p.T, n, R, q, old, q, R, q))
+		e.hset(st, m, sto(h, "(s_arr "+p.T+")", R))
+		e.hset(st, "GB_bufrd", sto(e.hget(st, "GB_bufrd"), b, fmt.Sprintf("(+ %s %s)", rd, n)))
+		er := e.sc.freshName("buf.err")
+		// empty buffer and non-empty destination: io.EOF
+		e.sc.define(er, "Iface", ite(fmt.Sprintf("(and (= %s %s) (> (s_len %s) 0))", rd, wr, p.T), e.ioEOF(), "nil_iface"))
+		return Val{Typ: cc.Signature().Results(), Tuple: []Val{{T: n, Typ: intT}, {T: er, Typ: errT}}}
+	}
+	modelEffects["(*bytes.Buffer).Read"] = eff
+}
+
+func (e *Exec) ioEOF() string {
+	n := e.sc.declGlobalConst("gerr_io.EOF", "Iface")
+	id := e.sc.typeTag(types.NewPointer(types.NewTuple(types.NewVar(0, nil, n, types.Typ[types.Int]))))
+	e.sc.axiom("gerr:"+n, fmt.Sprintf("(and (= (i_val %s) (- 0 %s 1000000)) (not (= (i_typ %s) 0)))", n, id, n))
+	return n
+}
 
 func (e *Exec) bufferMaps() []string {
 	return []string{e.heapMap("GB_bufdata", "(Array Int (Array Int Int))"), e.heapMap("GB_bufrd", "(Array Int Int)"), e.heapMap("GB_bufwr", "(Array Int Int)")}
@@ -24,4 +295,14 @@ func (e *Exec) havocBuffer(st *State, buf string, isFresh string) {
 	e.sc.assume(st.reach, "(and (<= 0 "+rd+") (<= "+rd+" "+wr+"))")
 }
 
-var _ = types.Typ
+// seqLit emits the derived fact that a short byte slice of known length n, read as a sequence, is the
+// explicit n-element array literal of its bytes (saves the solver an extensionality argument).
+func (e *Exec) seqLit(st *State, s Val, n int) {
+	h := e.hget(st, e.elemHeap(types.Typ[types.Byte]))
+	arr := sel(h, "(s_arr "+s.T+")")
+	lit := "((as const (Array Int Int)) 0)"
+	for i := 0; i < n; i++ {
+		lit = sto(lit, fmt.Sprint(i), sel(arr, fmt.Sprintf("(+ (s_off %s) %d)", s.T, i)))
+	}
+	e.sc.assume(st.reach, fmt.Sprintf("(=> (= (s_len %s) %d) (= %s %s))", s.T, n, e.seqOfSlice(st, s.T), lit))
+}
